@@ -1347,7 +1347,38 @@ func (r *Run) callBuiltin(fr *frame, name string, args []Value) Value {
 			}
 			return IntV{C: uint64(n)}
 		}
+	case "clear":
+		switch x := args[0].(type) {
+		case SliceV:
+			for i := range x.Data {
+				if r.raceOn() && !fr.user {
+					r.raceAccess(&x.Data[i], true, fr, nil)
+				}
+				x.Data[i] = zeroLike(x.Data[i])
+			}
+			return nil
+		case *MapV:
+			if x != nil {
+				r.raceAccess(x, true, fr, nil)
+				x.Keys, x.Vals = nil, nil
+			}
+			return nil
+		}
 	case "min", "max":
+		if sacc, ok := args[0].(StrV); ok {
+			// strings: ordered by the symbolic comparison (a path split per operand)
+			for _, a := range args[1:] {
+				c := r.binop(token.LSS, types.Typ[types.String], sacc, a).(BoolV)
+				less := c.C
+				if c.S != nil {
+					less = r.branch(c.S)
+				}
+				if (name == "min") != less {
+					sacc = a.(StrV)
+				}
+			}
+			return sacc
+		}
 		acc, ok := args[0].(IntV)
 		if !ok {
 			break
@@ -1393,6 +1424,43 @@ func (r *Run) callBuiltin(fr *frame, name string, args []Value) Value {
 		return args[0]
 	}
 	panic(unsupported("builtin %s on %T", name, args[0]))
+}
+
+// zeroLike: the zero value of the same shape as v (builtin clear on a slice whose element type is not at hand)
+func zeroLike(v Value) Value {
+	switch v := v.(type) {
+	case IntV:
+		return IntV{}
+	case BoolV:
+		return BoolV{}
+	case StrV:
+		return StrV{}
+	case Ptr:
+		return Ptr(nil)
+	case Iface:
+		return Iface{}
+	case Struct:
+		out := make(Struct, len(v))
+		for i := range v {
+			out[i] = zeroLike(v[i])
+		}
+		return out
+	case Array:
+		out := make(Array, len(v))
+		for i := range v {
+			out[i] = zeroLike(v[i])
+		}
+		return out
+	case SliceV:
+		return SliceV{Nil: true}
+	case *MapV:
+		return (*MapV)(nil)
+	case *Closure:
+		return (*Closure)(nil)
+	case *ChanV:
+		return (*ChanV)(nil)
+	}
+	panic(unsupported("builtin clear: zero value of %T", v))
 }
 
 func describe(v Value) string {
